@@ -167,6 +167,13 @@ def run_shard(shard):
         for lit in gen_py.string_literals():
             for fol in ("", " ", ".x", "'b'", " \"c\"", "\n", "if a else b", "#c", "[0]"):
                 check_case(acc, "x = " + lit + fol, "string")
+            if "\n" in lit:
+                # the same literal under CRLF line ends (continuation inside a string, multi-line strings)
+                for fol in ("", "\n", " 'b'\n", "\ny = 1\n"):
+                    check_case(acc, ("x = " + lit + fol).replace("\n", "\r\n"), "string-crlf")
+        for s in gen_py.SEEDS:
+            if "\\\n" in s or "'''" in s or '"""' in s:
+                check_case(acc, s.replace("\n", "\r\n"), "seed-crlf")
         for s in gen_py.SEEDS:
             check_case(acc, s, "seed")
         for s in ("x\U000e0100 = 1\n", "a\u0301b = c\n", "\u05e2\u05b4\u05d1 = 2\n", "x = a\u20dd + 1\n"):
